@@ -173,7 +173,10 @@ func (a *admDriver) block() {
 			}
 			m := a.honestMsg(v, fi, base)
 			t := orcTx{Msgs: []orcMsg{m}}
-			switch a.rng.Pick(5, 6, 1, 1) {
+			switch a.rng.Pick(5, 6, 1, 1, 1) {
+			case 4: // validator's public key, outsider's signature: must be refused with no state change
+				t.Forge = true
+				a.env.Outcome("mut:forged-signature")
 			case 1:
 				a.env.Outcome("mut:" + a.mutate(&t.Msgs[0], &t))
 			case 2:
@@ -200,9 +203,10 @@ func (a *admDriver) block() {
 	}
 }
 
-// directedC13Forged: F-10a on the real application — an outsider forges the submissions of all
-// three validators (their public keys are public; the signatures are made with the outsider's
-// key) and thereby sets the price of the round.
+// directedC13Forged: regression for F-10a (repaired in the repo) — an outsider forges the
+// submissions of all three validators (their public keys are public; the signatures are made with
+// the outsider's key). Every one of them must be refused by CheckTx and by DeliverTx without any
+// state change; if one is admitted, or the round's price ends up set, the sigs `…:F-10a` fire.
 func directedC13Forged(env *Env) {
 	spec := orcSpec{Powers: []int64{10, 10, 10}, MaxNonce: 3, ThA: 2, ThB: 3, MaxDetID: 5, MaxSize: 100,
 		Sources: [][2]bool{{true, true}}, Rules: [][]uint64{{0}, {1}}, TokenDec: []int32{0},
@@ -227,6 +231,10 @@ func directedC13Forged(env *Env) {
 		}
 		cls := a.send(t, open, ":F-10a")
 		env.Outcome("directed-forged:" + cls)
+		env.Eval("C13.admit")
+		if cls != "ante:sig" {
+			env.Violate("C13.admit", "forged-not-refused-as-unauthorized:F-10a", "forged create-price tx got "+cls+" instead of the signature error", o.hist)
+		}
 	}
 	pr, _ := o.c.App.OracleKeeper.GetPriceTRLatest(o.ctx(), 1)
 	env.Eval("C13.admit")
